@@ -127,6 +127,7 @@ class Universe:
         self._bi = dict(builtins.__dict__)
         self._bi['__import__'] = self.importer
         self._bi.update(rt.BUILTIN_OVERRIDES)
+        self._bi['print'] = lambda *a, **k: None   # logging/printing of the code under test is not the subject
 
     # ------------------------------------------------------------------ files
     def find(self, modname):
